@@ -145,10 +145,16 @@ class IntrospectionHandler(xml.sax.handler.ContentHandler):
                 interface.DBusInterface.knownInterfaces[iname]
             )
         else:
-            self.iface = interface.DBusInterface(iname)
+            # cached only once the whole definition was read: a document
+            # that fails to parse must not leave a partial interface behind
+            self.iface = interface.DBusInterface(iname, noRegister=True)
             self.interfaces.append(self.iface)
 
     def end_interface(self):
+        if not self.skip and self.iface is not None:
+            interface.DBusInterface.knownInterfaces[self.iface.name] = \
+                self.iface
+            self.iface = None
         self.skip = False
 
     def start_method(self, attrs):
